@@ -29,6 +29,12 @@ func register(prop string, corr string, g genFunc) {
 }
 
 func main() {
+	if len(os.Args) == 5 && os.Args[1] == "c03child" {
+		var seed uint64
+		fmt.Sscan(os.Args[3], &seed)
+		c03Child(os.Args[2], seed, os.Args[4])
+		return
+	}
 	if len(os.Args) == 4 && os.Args[1] == "c20child" {
 		c20Child(os.Args[2], os.Args[3])
 		return
